@@ -29,7 +29,7 @@ type caseRec struct {
 	Seed     uint64 `json:"seed"`
 	Compiler bool   `json:"compiler"`
 	Manual   string `json:"manual,omitempty"` // hand-written minimal history for this funcref channel instead of a generated one
-	Avoid    bool   `json:"avoid"` // generator avoids dereferencing model-stale funcrefs (known defect) so that other defects keep a clean attribution
+	Avoid    bool   `json:"avoid"`            // generator avoids dereferencing model-stale funcrefs (known defect) so that other defects keep a clean attribution
 }
 
 var runModes = []struct {
